@@ -29,6 +29,7 @@ type Ctx struct {
 	fnConsts   map[string]bool
 	specDone   map[string]bool
 
+	defs       map[string]string
 	Unmodelled map[string]int // calls havoced for lack of a contract: name -> count
 	AssumedUse map[string]int // assumed (trusted) contracts used: name -> count
 	Inlined    map[string]int
@@ -69,7 +70,8 @@ type structInfo struct {
 func NewCtx(w *World, intMode bool) *Ctx {
 	c := &Ctx{W: w, Int: intMode, declOf: map[string]bool{}, structs: map[string]*structInfo{}, typeTags: map[string]int{},
 		strLits: map[string]string{}, boxed: map[string]bool{}, globals: map[string]int{}, fnConsts: map[string]bool{}, specDone: map[string]bool{},
-		Unmodelled: map[string]int{}, AssumedUse: map[string]int{}, Inlined: map[string]int{}}
+		Unmodelled: map[string]int{}, AssumedUse: map[string]int{}, Inlined: map[string]int{}, defs: map[string]string{}}
+	activeDefs = c.defs
 	return c
 }
 
@@ -102,6 +104,9 @@ func (c *Ctx) define(prefix, sort, term string) string {
 	}
 	n := c.fresh(prefix)
 	c.body = append(c.body, fmt.Sprintf("(define-fun %s () %s %s)", n, sort, term))
+	if c.defs != nil && (len(term) < 400 || strings.HasPrefix(term, "(store ")) {
+		c.defs[n] = term
+	}
 	return n
 }
 
